@@ -62,7 +62,7 @@ fn main() {
             }
             let prop = props::find(&args[2]).unwrap_or_else(|| usage());
             let tier = Tier::parse(&args[3]).unwrap_or_else(|| usage());
-            let mut a = WorkerArgs { tier, shard: 0, nshards: 1, from: 0, careful: false, single: None, budget_ms: None };
+            let mut a = WorkerArgs { tier, shard: 0, nshards: 1, from: 0, careful: false, single: None, budget_ms: None, skip: vec![] };
             let mut i = 4;
             while i < args.len() {
                 let val = |i: usize| -> u64 { args.get(i + 1).and_then(|s| s.parse().ok()).unwrap_or_else(|| usage()) };
@@ -73,6 +73,7 @@ fn main() {
                     "--single" => { a.single = Some(val(i)); i += 1; }
                     "--budget" => { a.budget_ms = Some(val(i)); i += 1; }
                     "--careful" => a.careful = true,
+                    "--skip" => { a.skip = args.get(i + 1).map(|s| s.split(',').filter_map(|x| x.parse().ok()).collect()).unwrap_or_default(); i += 1; }
                     _ => usage(),
                 }
                 i += 1;
